@@ -442,7 +442,7 @@ impl Gen<'_> {
             }
         }
         if self.layout_free {
-            if rng.chance(1, 3) {
+            if rng.chance(1, 2) {
                 // member order is not significant in restXml
                 for i in (1..kids.len()).rev() {
                     kids.swap(i, rng.below(i as u64 + 1) as usize);
@@ -474,9 +474,56 @@ impl Gen<'_> {
         Node::Elem { name: name.to_owned(), attrs, kids, selfclose }
     }
 
-    fn document(&self, rng: &mut Rng, ty: &str, plan: &Plan) -> Node {
+    /// the element group of every member of struct type `ty` (one element; a flattened list: two), all present;
+    /// `None` for unions and for the unwrapped GetBucketLocationOutput
+    fn groups(&self, rng: &mut Rng, ty: &str) -> Option<Vec<Vec<Node>>> {
         let t = &self.tables["types"][ty];
+        if t["de_root"]["kind"] == "location" {
+            return None;
+        }
+        let def = &t["de"];
+        if def["kind"] != "struct" {
+            return None;
+        }
+        let mut out = Vec::new();
+        for f in def["fields"].as_array().unwrap() {
+            let tag = f["tag"].as_str().unwrap();
+            let fk = f["kind"].as_str().unwrap();
+            let mut g = Vec::new();
+            match f["shape"].as_str().unwrap() {
+                "single" => {
+                    let (k, a) = self.content(rng, fk, f["ref"].as_str(), f["fmt"].as_str(), 1, &Plan::Max);
+                    g.push(self.elem(rng, tag, a, k));
+                }
+                "wrapped" => {
+                    let m = f["member"].as_str().unwrap();
+                    let mut items = Vec::new();
+                    for _ in 0..2 {
+                        let (k, a) = self.content(rng, fk, f["ref"].as_str(), f["fmt"].as_str(), 1, &Plan::Max);
+                        items.push(self.elem(rng, m, a, k));
+                    }
+                    g.push(self.elem(rng, tag, String::new(), items));
+                }
+                _ => {
+                    for _ in 0..2 {
+                        let (k, a) = self.content(rng, fk, f["ref"].as_str(), f["fmt"].as_str(), 1, &Plan::Max);
+                        g.push(self.elem(rng, tag, a, k));
+                    }
+                }
+            }
+            out.push(g);
+        }
+        Some(out)
+    }
+
+    fn document(&self, rng: &mut Rng, ty: &str, plan: &Plan) -> Node {
         let (kids, attrs) = self.content(rng, "ref", Some(ty), None, 0, plan);
+        self.wrap_root(rng, ty, kids, attrs)
+    }
+
+    /// the root element(s) the harness dispatch expects for `ty` around the content `kids`
+    fn wrap_root(&self, rng: &mut Rng, ty: &str, kids: Vec<Node>, attrs: String) -> Node {
+        let t = &self.tables["types"][ty];
         let both_roots = !t["de_root"].is_null() && !t["ser_root"].is_null();
         if both_roots {
             let r = &t["de_root"];
@@ -683,6 +730,77 @@ fn generate(rng: &mut Rng, n: u64, tier: &str, emit: &mut dyn FnMut(Vec<String>)
             let mut out = Vec::new();
             render(&wild.document(rng, ty, &Plan::Max), &mut out);
             put(ty, &out);
+        }
+    }
+    // S2: member order is not significant in a restXml structure — every struct type, all members present, in the
+    // Smithy declaration order (what an AWS SDK writes), in its reverse, and in two random permutations: the
+    // document must be accepted with the same value each time.
+    // S3: a single-valued member (everything but a flattened list) sent twice must be refused wherever the two
+    // copies stand: only the required other members present (copies first / last), and all members present
+    // (copies first, last, and one first + one last).
+    for ty in &both {
+        let Some(g1) = canon.groups(rng, ty) else { continue };
+        let Some(g2) = canon.groups(rng, ty) else { continue };
+        let fields = tables["types"][ty]["de"]["fields"].as_array().unwrap();
+        let nf = fields.len();
+        let mut emit_order = |rng: &mut Rng, parts: Vec<&Vec<Node>>| {
+            let kids: Vec<Node> = parts.into_iter().flat_map(|g| g.iter().cloned()).collect();
+            let mut out = Vec::new();
+            render(&canon.wrap_root(rng, ty, kids, String::new()), &mut out);
+            put(ty, &out);
+        };
+        if nf >= 2 {
+            let tags: Vec<&str> = fields.iter().map(|f| f["tag"].as_str().unwrap()).collect();
+            let mut smithy: Vec<usize> = match tables["types"][ty]["smithy_order"].as_array() {
+                Some(o) => o.iter().filter_map(|t| tags.iter().position(|x| Some(*x) == t.as_str())).collect(),
+                None => (0..nf).collect(),
+            };
+            for i in 0..nf {
+                if !smithy.contains(&i) {
+                    smithy.push(i);
+                }
+            }
+            let mut orders: Vec<Vec<usize>> = vec![smithy.clone(), smithy.iter().rev().copied().collect()];
+            for _ in 0..2 {
+                let mut p: Vec<usize> = (0..nf).collect();
+                for i in (1..nf).rev() {
+                    p.swap(i, rng.below(i as u64 + 1) as usize);
+                }
+                orders.push(p);
+            }
+            for o in &orders {
+                emit_order(rng, o.iter().map(|&i| &g1[i]).collect());
+            }
+        }
+        for i in 0..nf {
+            if fields[i]["shape"] == "flat" {
+                continue;
+            }
+            let req: Vec<usize> = (0..nf).filter(|&j| j != i && fields[j]["pres"] == "req").collect();
+            let all: Vec<usize> = (0..nf).filter(|&j| j != i).collect();
+            // only the required others
+            let mut a: Vec<&Vec<Node>> = vec![&g1[i], &g2[i]];
+            a.extend(req.iter().map(|&j| &g1[j]));
+            emit_order(rng, a);
+            if !req.is_empty() {
+                let mut a: Vec<&Vec<Node>> = req.iter().map(|&j| &g1[j]).collect();
+                a.extend([&g1[i], &g2[i]]);
+                emit_order(rng, a);
+            }
+            if !all.is_empty() && all.len() != req.len() {
+                let mut a: Vec<&Vec<Node>> = vec![&g1[i], &g2[i]];
+                a.extend(all.iter().map(|&j| &g1[j]));
+                emit_order(rng, a);
+                let mut a: Vec<&Vec<Node>> = all.iter().map(|&j| &g1[j]).collect();
+                a.extend([&g1[i], &g2[i]]);
+                emit_order(rng, a);
+            }
+            if !all.is_empty() {
+                let mut a: Vec<&Vec<Node>> = vec![&g1[i]];
+                a.extend(all.iter().map(|&j| &g1[j]));
+                a.push(&g2[i]);
+                emit_order(rng, a);
+            }
         }
     }
     // S7: documents the way an SDK writes `Grantee` (xsi:type as attribute), for the types that contain it
